@@ -557,7 +557,7 @@ func c09Body(c *ev.Ctx) {
 		}
 		fields = append(fields, idxField)
 		big65 := "0x" + strings.Repeat("f", 65)
-		repl := map[string]any{"null": nil, "number": 7, "string zz": "zz", "empty string": "", "0x": "0x", " 1": " 1", "1.5": "1.5", "-1": "-1", "over-long hex": big65, "r": ref.R.String(), "2^256-1": "0x" + strings.Repeat("f", 64), "object": map[string]any{}, "bool": true, "array of numbers": []any{1, 2}, "array of zz": []any{"zz", "0x1"}, "empty array": []any{}, "nested too deep": []any{[]any{[]any{"0x1"}}}, "string 0x1": "0x1", "float": 1.5, "negative": -1, "2^32": 4294967296, "2^32-1": 4294967295, "decimal string": "12"}
+		repl := map[string]any{"null": nil, "number": 7, "string zz": "zz", "empty string": "", "0x": "0x", " 1": " 1", "1.5": "1.5", "-1": "-1", "over-long hex": big65, "r": ref.R.String(), "2^256-1": "0x" + strings.Repeat("f", 64), "object": map[string]any{}, "bool": true, "array of numbers": []any{1, 2}, "array of zz": []any{"zz", "0x1"}, "empty array": []any{}, "nested too deep": []any{[]any{[]any{"0x1"}}}, "string 0x1": "0x1", "control char": "0x1\u0001", "bell": "\u0007", "DEL": "12\u007f", "quote and backslash": "0x1\"\\", "non-ASCII": "0x1\u00e9\u2028", "float": 1.5, "negative": -1, "2^32": 4294967296, "2^32-1": 4294967295, "decimal string": "12"}
 		var rnames []string
 		for k := range repl {
 			rnames = append(rnames, k)
